@@ -236,10 +236,13 @@ impl PoolMap {
                 entry.inner.transaction().hash(),
                 entry.status
             );
+            let ancestors = self.calc_ancestors(id);
+            let descendants = self.calc_descendants(id);
             self.update_ancestors_index_key(&entry.inner, EntryOp::Remove);
             self.update_descendants_index_key(&entry.inner, EntryOp::Remove);
             self.remove_entry_edges(&entry.inner);
             self.remove_entry_links(id);
+            self.unrelate_entries(&ancestors, &descendants);
             self.track_entry_statics(Some(entry.status), None);
             self.update_stat_for_remove_tx(entry.inner.size, entry.inner.cycles);
             entry.inner
@@ -432,6 +435,36 @@ impl PoolMap {
             }
         }
         self.links.remove(id);
+    }
+
+    /// An entry having both ancestors and descendants has been removed alone, the `ancestors`
+    /// and the `descendants` which were only related through it are not related any more.
+    fn unrelate_entries(
+        &mut self,
+        ancestors: &HashSet<ProposalShortId>,
+        descendants: &HashSet<ProposalShortId>,
+    ) {
+        if ancestors.is_empty() {
+            return;
+        }
+        for desc_id in descendants {
+            let remained = self.calc_ancestors(desc_id);
+            for anc_id in ancestors.difference(&remained) {
+                let (Some(anc), Some(desc)) =
+                    (self.get(anc_id).cloned(), self.get(desc_id).cloned())
+                else {
+                    continue;
+                };
+                self.entries.modify_by_id(anc_id, |e| {
+                    e.inner.sub_descendant_weight(&desc);
+                    e.evict_key = e.inner.as_evict_key();
+                });
+                self.entries.modify_by_id(desc_id, |e| {
+                    e.inner.sub_ancestor_weight(&anc);
+                    e.score = e.inner.as_score_key();
+                });
+            }
+        }
     }
 
     fn update_ancestors_index_key(&mut self, child: &TxEntry, op: EntryOp) {
